@@ -194,6 +194,7 @@ Definition call_builtin (ev : evaluator) (b : builtin) (sg : signature) (args : 
   | BAvg =>
       let* a := arg0 args in
       match a with
+      | VArr [] => ret VNull off
       | VArr vs => let* s := avg_sum vs (S754_zero false) in from_f64 (fdiv s (f_of_Z (zlen vs))) off
       | _ => fabricated
       end
@@ -275,7 +276,10 @@ Definition call_builtin (ev : evaluator) (b : builtin) (sg : signature) (args : 
       match a with
       | VNum _ => ret a off
       | VStr s => let* o := from_json s in
-                  match o with Some v => ret v off | None => ret VNull off end
+                  match o with
+                  | Some v => if is_number v then ret v off else ret VNull off
+                  | None => ret VNull off
+                  end
       | _ => ret VNull off
       end
   | BToString =>
